@@ -1,4 +1,5 @@
 import TinyFlux.Audit.Tool
 import TinyFlux.Props.C07
 import TinyFlux.Props.C07State
+import TinyFlux.Props.C07Witness
 #audit TinyFlux.Props.C07
